@@ -336,6 +336,9 @@ class CallMixin:
             self.oblige(f'call-pre[{c.name}]#{j}', self.ev_text(txt, fr0), node, txt)
         for exc, cond in c.raises.items():
             t = self.ev_text(cond, fr0)
+            if not getattr(c, 'exact_raises', True) and not self.cur_pure() and t is not False:
+                # "may raise": the condition is necessary, not sufficient — the callee raises or not, unknown here
+                t = self.land(t, p.fresh(z3.BoolSort(), f'{c.name.split(".")[-1]}_raises_{exc}'))
             d = t if isinstance(t, bool) else (p.branch(t) if not self.cur_pure() else None)
             if d is None:
                 raise Unsupported('raising callee in pure mode')
@@ -512,6 +515,10 @@ class CallMixin:
             if '__post_init__' in d:
                 self.call_method(obj, '__post_init__', [], {}, node)
             return obj
+        if cls.__name__ in (getattr(self.cur_contract, 'native_classes', None) or ()) and not any(is_sym(a) or contains_sym(a) for a in list(args) + list(kwargs.values())):
+            # an immutable value class of the repository constructed from concrete arguments: run natively (listed assumption)
+            self.assumptions.add(f'{cls.__name__}(...) with concrete arguments is evaluated natively (immutable value object)')
+            return cls(*args, **kwargs)
         if init is None or not isinstance(init, types.FunctionType):
             raise Unsupported(f'construction of {cls.__name__}')
         fs = self.func_src(inspect.unwrap(init))
@@ -739,6 +746,7 @@ class CallMixin:
         names['re_group_none'] = Builtin('re_group_none', lambda a, k, n, f: self.re_group_syms(a[0], a[3] if len(a) > 3 else 'match', a[1])[1](self.zs.lift(a[2], STR)))
         for om, (argsorts, ret) in (getattr(c, 'opaque', None) or {}).items():
             names['obj_' + om] = Builtin('obj_' + om, lambda a, k, n, f, om=om, argsorts=argsorts, ret=ret: self.opaque_fn(om, argsorts, ret, a))
+        names['truthy'] = Builtin('truthy', lambda a, k, n, f: self.truth(a[0]))
         names['seq_eq_from'] = Builtin('seq_eq_from', self.b_seq_eq_from)
         names['ite'] = Builtin('ite', lambda a, k, n, f: self.ite(self.truth(a[0]), a[1], a[2]))
         return names
